@@ -993,6 +993,16 @@ class Gen:
                 w.queue.remove(e)
                 w.ev_deliver(e)
 
+    def renewed_registration_replay(self, v, raw, name, subj, pk):
+        """same lifetime: the window of the first registration runs out, the user registers the same attribute again
+        and the old disclosure is replayed - what was attested must not be attested again"""
+        w, rng = self.w, self.rng
+        w.ev_advance(self.pick([301, 450.5, 900]))
+        w.ev_reg(v, raw, name, subj, None)
+        w.ctx.count("renewed-registration-then-replay")
+        for e in pk:
+            w.ev_deliver(e, replayed=True)
+
     def forged_copy(self, p, blob):
         """the same pointer pair (previous hash, content hash) under a signature that does not verify under p's key"""
         w, rng = self.w, self.rng
@@ -1136,6 +1146,10 @@ class Gen:
             for _ in range(rng.randint(2, 3)):
                 for e in pk:
                     w.ev_deliver(e, replayed=True)
+            if self.pick([True, True, False]):
+                # the node's own row was NOT stored (third party's came first): only its memory stands between the
+                # renewed registration and a second attestation
+                self.renewed_registration_replay(v, h1, name, a, pk)
         elif kind == "tainted":
             # everything needed for an attestation is there, but the disclosure carries one thing that does not verify
             w.ev_reg(v, h1, name, a, None)
@@ -1436,6 +1450,8 @@ class Gen:
                     w.ev_advance(rng.choice([1, 100, 301]))
                 for e in pk:
                     w.ev_deliver(e, replayed=True)
+            if self.pick([True, False]):
+                self.renewed_registration_replay(v, h1, name, a, pk)
         elif kind == "long-chain":
             n = rng.choice([8, 9, 10, 11, 12, 21, 39])
             for i in range(n):
@@ -1737,7 +1753,8 @@ REQUIRED_CLASSES = (
                                     "second-attestation-missing")]
     + ["fixed-metadata:registered-with-standard-key", "reg:md-carries-standard-key",
        "forged-copy-of-chained-token:replaced", "forged-copy-of-chained-token:added-before",
-       "forged-copy-of-chained-token:added-after", "craft:forged-copy:in-random-disclosure"]
+       "forged-copy-of-chained-token:added-after", "craft:forged-copy:in-random-disclosure",
+       "renewed-registration-then-replay"]
     + ["forged-out-of-order:forged", "forged-out-of-order:honest-control", "craft:forged-link:position=last",
        "craft:forged-link:position=inner", "bad-token-then-restart:orphan", "bad-token-then-restart:other-subjects-token",
        "orphan-flood:over-cap", "orphan-flood:within-cap", "advert:raised:RuntimeError", "advert:raised:TypeError",
